@@ -213,12 +213,12 @@ def t_read_line(E, n, ending):
 
 
 TASKS = [
-    Task('converter.protect/unprotect', t_cipher_roundtrip, max_seconds=240,
+    Task('converter.protect/unprotect', t_cipher_roundtrip, max_seconds=600,
          cases=[{'n': n, 'first': f} for n in (0, 1, 2, 142, 143, 144, 145, 290, 600) for f in ('protect', 'unprotect')]),
     Task('converter.protect/unprotect (long streams)', t_cipher_roundtrip, tier='thorough',
          cases=[{'n': n, 'first': f} for n in (511, 512, 513, 1024, 1200, 4200) for f in ('protect', 'unprotect')]),
-    Task('Program.save/load', t_save_load, max_seconds=300, cases=[{'mode': m, 'n': n} for m in (b'P', b'B') for n in (2, 3, 40, 150)]),
-    Task('Program.save (protected program)', t_protected_save, max_seconds=300, cases=[{'mode': m} for m in (b'P', b'B', b'A')]),
+    Task('Program.save/load', t_save_load, max_seconds=500, cases=[{'mode': m, 'n': n} for m in (b'P', b'B') for n in (2, 3, 40, 150)]),
+    Task('Program.save (protected program)', t_protected_save, max_seconds=500, cases=[{'mode': m} for m in (b'P', b'B', b'A')]),
     Task('Program.merge (delivered lines)', t_merge_lines,
          cases=[{'n': n, 'cr': c} for n in (0, 4, 254, 255, 256, 300) for c in (b'\r', None)]),
     Task('TextFile.read_line', t_read_line, cases=[{'n': n, 'ending': e} for n in (0, 1, 254, 255, 256, 300) for e in ('cr', 'crlf', 'eof')]),
